@@ -315,12 +315,16 @@ where
     {
         let string_slice = val.as_ref();
 
+        verif_point!(PRE_MAP_GET, self.verif_shard_of(string_slice), 0);
         if let Some(key) = self.map.get(string_slice) {
+            verif_point!(OBS_MAP_GET, 1, key.into_usize());
             Ok(*key)
         } else {
+            verif_point!(OBS_MAP_GET, 0, 0);
             // Determine which shard will have our `string_slice` key.
             let hash = self.map.hasher().hash_one(string_slice);
             let shard_key = self.map.determine_shard(hash as usize);
+            verif_point!(PRE_SHARD_WRITE, shard_key, 0);
             // Grab the shard and a write lock on it.
             let mut shard = self.map.shards().get(shard_key).unwrap().write();
             // Try getting the value for the `string_slice` key. If we get `Some`, nothing to do.
@@ -335,13 +339,17 @@ where
                 // Safety: occupied_bucket is valid to borrow, which we keep short
                 Ok(occupied_bucket) => unsafe { *occupied_bucket.as_ref().1.get() },
                 Err(insert_slot) => {
+                    verif_point!(OBS_SHARD_FIND, 0, 0);
                     // Safety: The drop impl removes all references before the arena is dropped
                     let string: &'static str = unsafe { self.arena.store_str(string_slice)? };
 
+                    verif_point!(PRE_KEY_FETCH_ADD, 0, 0);
                     let key = K::try_from_usize(self.key.fetch_add(1, Ordering::SeqCst))
                         .ok_or_else(|| LassoError::new(LassoErrorKind::KeySpaceExhaustion))?;
 
+                    verif_point!(PRE_STRINGS_INSERT, key.into_usize(), 0);
                     self.strings.insert(key, string);
+                    verif_point!(PRE_MAP_INSERT, key.into_usize(), 0);
                     // Safety: insert_slot was just returned by find_insert_slot and we have not mutated the shard.
                     unsafe {
                         shard.insert_in_slot(hash, insert_slot, (string, SharedValue::new(key)));
@@ -409,15 +417,23 @@ where
     ///
     #[cfg_attr(feature = "inline-more", inline)]
     pub fn try_get_or_intern_static(&self, string: &'static str) -> LassoResult<K> {
+        verif_point!(PRE_MAP_GET, self.verif_shard_of(string), 0);
         if let Some(key) = self.map.get(string) {
+            verif_point!(OBS_MAP_GET, 1, key.into_usize());
             Ok(*key)
         } else {
+            verif_point!(OBS_MAP_GET, 0, 0);
+            verif_point!(PRE_MAP_ENTRY, self.verif_shard_of(string), 0);
             let key = match self.map.entry(string) {
                 Entry::Occupied(o) => *o.get(),
                 Entry::Vacant(v) => {
+                    verif_point!(OBS_MAP_ENTRY, 0, 0);
+                    verif_point!(PRE_KEY_FETCH_ADD, 0, 0);
                     let key = K::try_from_usize(self.key.fetch_add(1, Ordering::SeqCst))
                         .ok_or_else(|| LassoError::new(LassoErrorKind::KeySpaceExhaustion))?;
+                    verif_point!(PRE_STRINGS_INSERT, key.into_usize(), 0);
                     self.strings.insert(key, string);
+                    verif_point!(PRE_MAP_INSERT, key.into_usize(), 0);
                     v.insert(key);
 
                     key
@@ -448,6 +464,7 @@ where
     where
         T: AsRef<str>,
     {
+        verif_point!(PRE_MAP_GET, self.verif_shard_of(val.as_ref()), 1);
         self.map.get(val.as_ref()).map(|k| *k)
     }
 
@@ -515,6 +532,7 @@ where
     ///
     #[cfg_attr(feature = "inline-more", inline)]
     pub fn resolve<'a>(&'a self, key: &K) -> &'a str {
+        verif_point!(PRE_STRINGS_GET, key.into_usize(), 0);
         *self.strings.get(key).expect("Key out of bounds")
     }
 
@@ -534,6 +552,7 @@ where
     ///
     #[cfg_attr(feature = "inline-more", inline)]
     pub fn try_resolve<'a>(&'a self, key: &K) -> Option<&'a str> {
+        verif_point!(PRE_STRINGS_GET, key.into_usize(), 1);
         self.strings.get(key).map(|s| *s)
     }
 
@@ -602,12 +621,35 @@ where
         Strings::new(self)
     }
 
+    /// Read-only view of the arena's layout
+    #[cfg(lasso_verif)]
+    #[doc(hidden)]
+    pub fn verif_audit(&self) -> crate::verif::ArenaAudit {
+        self.arena.verif_audit()
+    }
+
+    /// The value of the key counter
+    #[cfg(lasso_verif)]
+    #[doc(hidden)]
+    pub fn verif_key_counter(&self) -> usize {
+        self.key.load(Ordering::SeqCst)
+    }
+
+    /// The shard of the string-to-key map that `string` belongs to
+    #[cfg(lasso_verif)]
+    #[doc(hidden)]
+    pub fn verif_shard_of(&self, string: &str) -> usize {
+        self.map
+            .determine_shard(self.map.hasher().hash_one(string) as usize)
+    }
+
     /// Set the `ThreadedRodeo`'s maximum memory usage while in-flight
     ///
     /// Note that setting the maximum memory usage to below the currently allocated
     /// memory will do nothing
     #[cfg_attr(feature = "inline-more", inline)]
     pub fn set_memory_limits(&self, memory_limits: MemoryLimits) {
+        verif_point!(PRE_LIMIT_STORE, memory_limits.max_memory_usage, 0);
         self.arena
             .set_max_memory_usage(memory_limits.max_memory_usage);
     }
